@@ -137,15 +137,22 @@ SameClass(a) ==
   IF IsArith(VT(a)) THEN ArithC
   ELSE IF IsPtr(VT(a)) THEN PtrC \cup {n \in Cand : n.x.npc}
   ELSE {n \in Cand : VT(n) = VT(a)}
+(* The controlling expression is a non-constant object or one of the constants of CTypes.CondControls: cproc folds a  *)
+(* constant condition at parse time into exprconvert(selected operand, t), a different path for the same required type. *)
+(* A folded conditional may or may not be an integer constant expression (6.6p6 vs. what compilers accept when the      *)
+(* unselected operand is not constant): its value is "not tracked" (never a null pointer constant, never cast to pointer-to-void). *)
 G_Cond ==
-  /\ \E c0 \in RS(CondLeaves), a \in RN(Cand) : \E b \in RN(SameClass(a)) :
-     LET xt == TypeOfCond(a.x, b.x, targ)
-         f(D) == M_condexpr(a.m, b.m, targ, D).t
+  /\ \E c0 \in RS(CondLeaves), ci \in RS(1..Len(CondControls)), a \in RN(Cand) : \E b \in RN(SameClass(a)) :
+     LET cv == CondControls[ci]
+         xt == TypeOfCond(a.x, b.x, targ)
+         f(D) == IF CondIsConstant(cv) THEN M_condexpr_folded(a.m, b.m, CondSelectsFirst(cv), targ, D).t ELSE M_condexpr(a.m, b.m, targ, D).t
+         ctext == IF CondIsConstant(cv) THEN cv ELSE c0.e
          \* 6.2.7p3 does not say what the composite of an enumerated type and its compatible integer type is
          det == (IsPtr(VT(a)) /\ IsPtr(VT(b)) /\ PtrTargetsCompatible(VT(a), VT(b))) => CompositeDetermined(Unq(VT(a).to), Unq(VT(b).to))
      IN /\ Fresh(a) /\ Fresh(b) /\ OkBoth(xt, f(Devs)) /\ det
-        /\ Add(Node("(" \o c0.e \o " ? " \o a.e \o " : " \o b.e \o ")", XV(xt), MV(f(Devs)), 1 + Max2(a.d, b.d),
-                    a.devs \cup b.devs \cup LocalFired(f), a.ibf \/ b.ibf \/ c0.ibf, "na"))
+        /\ Add(Node("(" \o ctext \o " ? " \o a.e \o " : " \o b.e \o ")", XV(xt), MV(f(Devs)), 1 + Max2(a.d, b.d),
+                    a.devs \cup b.devs \cup LocalFired(f), a.ibf \/ b.ibf \/ (~CondIsConstant(cv) /\ c0.ibf),
+                    IF CondIsConstant(cv) THEN "unknown" ELSE "na"))
 
 (* ---- cast --------------------------------------------------------------------- *)
 CastTypes == <<B("bool"), B("char"), B("schar"), B("uchar"), B("short"), B("ushort"), B("int"), B("uint"), B("long"), B("ulong"),
